@@ -247,6 +247,16 @@ func ruleR12_3(c *Check) {
 		}
 		l0sites++
 		r.Check(descendingIterSite(w, ni, s, 2), ni, "L0 inputs newest first", s, "level-0 inputs are not added from the last table to the first")
+		if call, isCall := s.(*ast.CallExpr); isCall {
+			for _, a := range call.Args {
+				if tv, ok := w.Info.Types[a]; ok {
+					if sl, isSl := tv.Type.Underlying().(*types.Slice); isSl && namedIs(sl.Elem(), modPath+"/table", "Table") {
+						o := tableListOrient(w, ni, a, 0)
+						r.Check(o == 1, ni, "the L0 input list walked backwards is in table order", s, "the table list handed to the reversed append is not known to be in the level's order")
+					}
+				}
+			}
+		}
 	}
 	r.Exists(l0sites >= 1, ni, "level-0 branch adds its inputs", nil, "no iterator site under `lev == 0`")
 	// levelHandler.appendIterators: under level == 0 every table iterator is added newest first
@@ -265,9 +275,104 @@ func ruleR12_3(c *Check) {
 		}
 		n0++
 		r.Check(descendingIterSite(w, own, call, 2), own, k.key("read path appends L0 newest first", w, call), call, "level-0 table iterators are appended in table order (oldest first): an older copy of an identical key+version wins the merge")
+		// … from a list that is in the level's own (oldest-first) order: a list already reversed and
+		// then walked backwards is oldest first again
+		for _, a := range call.Args {
+			if tv, ok := w.Info.Types[a]; ok {
+				if sl, isSl := tv.Type.Underlying().(*types.Slice); isSl && namedIs(sl.Elem(), modPath+"/table", "Table") {
+					o := tableListOrient(w, own, a, 0)
+					r.Check(o == 1, own, k.key("the list walked backwards is in table order", w, call), call, "the table list handed to the reversed append is not known to be in the level's order (built in a counting-down loop, or of unknown origin): the merge may receive the oldest table first")
+				}
+			}
+		}
 		return true
 	})
 	r.Exists(n0 >= 1, ai, "read path has a level-0 branch that adds table iterators", nil, "no table iterator is added under `level == 0` in levelHandler.appendIterators")
+}
+
+// tableListOrient: +1 if the list expression holds tables in the order of the level's own list
+// (levelHandler.tables, compactDef.top: oldest first for L0), -1 if in the reverse order, 0 unknown.
+// A local list is followed through its appends: built in a range / counting-up loop over a list it
+// has that list's orientation, in a counting-down loop the opposite one.
+func tableListOrient(w *World, own *Fn, e ast.Expr, depth int) int {
+	e = unparen(e)
+	if depth > 3 {
+		return 0
+	}
+	switch w.fieldOf(e) {
+	case w.Field("badger.levelHandler.tables"), w.Field("badger.compactDef.top"):
+		if w.fieldOf(e) != nil {
+			return 1
+		}
+	}
+	if se, ok := e.(*ast.SliceExpr); ok {
+		return tableListOrient(w, own, se.X, depth+1)
+	}
+	id, ok := e.(*ast.Ident)
+	if !ok {
+		return 0
+	}
+	v, ok := w.Use(id).(*types.Var)
+	if !ok || v.IsField() {
+		return 0
+	}
+	res, n := 0, 0
+	for _, s := range own.Root().SitesDeep(selStoreVar(v)) {
+		as, ok := s.Node.(*ast.AssignStmt)
+		if !ok || len(as.Rhs) != 1 {
+			continue
+		}
+		rhs := unparen(as.Rhs[0])
+		call, isCall := rhs.(*ast.CallExpr)
+		if isCall && isBuiltin(w, call, "make") {
+			continue
+		}
+		o := 0
+		if isCall && isBuiltin(w, call, "append") && len(call.Args) == 2 && !call.Ellipsis.IsValid() {
+			// the enclosing loop decides
+			for p := w.parentOf(as); p != nil; p = w.parentOf(p) {
+				if rs, isRange := p.(*ast.RangeStmt); isRange {
+					o = tableListOrient(w, s.SiteFn, rs.X, depth+1)
+					break
+				}
+				if fs, isFor := p.(*ast.ForStmt); isFor {
+					dir := 0
+					if inc, ok := fs.Post.(*ast.IncDecStmt); ok {
+						if inc.Tok == token.INC {
+							dir = 1
+						} else {
+							dir = -1
+						}
+					}
+					// the list indexed by the loop variable
+					base := 0
+					ast.Inspect(fs.Body, func(m ast.Node) bool {
+						if ix, ok := m.(*ast.IndexExpr); ok && base == 0 {
+							base = tableListOrient(w, s.SiteFn, ix.X, depth+1)
+						}
+						return true
+					})
+					o = dir * base
+					break
+				}
+				if _, isFn := p.(*ast.FuncLit); isFn {
+					break
+				}
+				if _, isFn := p.(*ast.FuncDecl); isFn {
+					break
+				}
+			}
+		} else {
+			o = tableListOrient(w, s.SiteFn, rhs, depth+1)
+		}
+		if n == 0 {
+			res = o
+		} else if res != o {
+			return 0
+		}
+		n++
+	}
+	return res
 }
 
 // addsTableIterators: the call creates table iterators — Table.NewIterator itself, or a module
